@@ -82,12 +82,13 @@ let handle line =
     let f = Array.of_list rest in
     let kind = f.(6) in
     if String.length kind > 5 && String.sub kind 0 5 = "huge." then begin
-      (* too long to materialise: length-only prediction (AeadFrameProofs.na_dec_panics_spec) *)
+      (* too long to materialise: length-only prediction (AeadFrameProofs.na_dec_len_only_err/_panic) *)
       let len = n_of_dec (String.sub kind 5 (String.length kind - 5)) in
       let pl = match f.(2) with "R" -> 0 | _ -> 5 in
       let ivlen = match f.(0) with "chacha" -> 12 | "xchacha" -> 24 | _ -> failwith "huge scheme" in
-      if na_dec_panics (Some chacha_open_max) (nat_of_int pl) (nat_of_int ivlen) (nat_of_int 16) len true
-      then "PANIC" else failwith "huge case outside the panic region"
+      (match na_dec_len_only (Some chacha_open_max) (Some chacha_tink_ct_max) (nat_of_int pl) (nat_of_int ivlen) (nat_of_int 16) len true with
+       | Some Err -> "err" | Some Panic -> "PANIC" | Some (Ok _) -> failwith "len-only"
+       | None -> failwith "huge case whose outcome depends on the content")
     end else begin
       let (_, dec, _) = scheme_of f in
       show (dec (unhex f.(7)) (unhex f.(8)))
